@@ -317,9 +317,10 @@ func c15Concurrent(prefix []int, mode string, chain []string) explore.Outcome {
 		hlog := &hx.Log{}
 		r := c15Rig(mode, "single", chain, tr, hlog, "tools/call")
 		peers := []*RawPeer{NewRawPeer(r), NewRawPeer(r)}
-		for _, p := range peers {
+		for i, p := range peers {
 			if err := p.Handshake(); err != nil {
-				viol = append(viol, V("harness", "%v", err))
+				// the middlewares of this rig only act on tools/call: a handshake they break is a finding, not a harness fault
+				viol = append(viol, V(key(fmt.Sprintf("handshake-of-client-%d-fails", i+1)), "with the chain configured, the handshake of client %d fails: %v", i+1, err))
 				return
 			}
 		}
